@@ -12,7 +12,8 @@ PROPERTY = "C20"
 LEVEL = "model_checking"
 
 MODES = ["truncate_once", "truncate", "append", "readonly"]
-KINDS = ["scalar", "collection"]
+# "+pre": the storage is created with two frames already in it (MemoryStorage.from_fields); "+preC": complex frames
+KINDS = ["scalar", "collection", "scalar+pre", "collection+preC"]
 
 # operation alphabet, simplest first
 OPS = [
@@ -62,6 +63,14 @@ class Model:
         self.a, self.b, self.x = list(data_a), list(data_b), list(data_x)
         self.c = [complex(v, 0.5 + k) for k, v in enumerate(data_b)]
         self.session_complex = False
+
+    def prefill(self, complex_frames):
+        """two frames that are in the storage from the beginning (created with from_fields)"""
+        fa = self.c if complex_frames else self.a
+        fb = [v * 2 for v in (self.c if complex_frames else self.b)]
+        self.frames = [(0.5, tuple(complex(v) for v in fa)), (0.75, tuple(complex(v) for v in fb))]
+        self.template = self.grid = "ab"
+        self.session_complex = bool(complex_frames)
 
     def _start(self, fam):
         if self.mode == "readonly":
@@ -147,6 +156,7 @@ class Real:
         from pde import FieldCollection, MemoryStorage, ScalarField, UnitGrid
 
         self.np = np
+        kind = kind.split("+")[0]
         g, gx = UnitGrid([2]), UnitGrid([3])
         if kind == "scalar":
             self.a = ScalarField(g, [1.0, 2.0], label="a")
@@ -166,6 +176,15 @@ class Real:
         self.c.data[...] = (self.b.data + 1j * (0.5 + np.arange(self.b.data.size).reshape(self.b.data.shape)))
         self.kind = kind
         self.st = MemoryStorage(write_mode=mode)
+        self.MemoryStorage = MemoryStorage
+
+    def prefill(self, mode, complex_frames):
+        src = self.c if complex_frames else self.a
+        pa = src.copy()
+        pb = (self.c if complex_frames else self.b).copy()
+        pb.data[...] = pb.data * 2
+        self.st = self.MemoryStorage.from_fields(times=[0.5, 0.75], fields=[pa, pb], write_mode=mode)
+        self._prefill_fields = (pa, pb)  # never touched again
 
     def flat(self, f):
         return tuple(complex(v) for v in self.np.asarray(f.data).ravel())
@@ -381,6 +400,9 @@ def run_history(case):
 def _replay(mode, kind, hist, check_all=False):
     real = Real(mode, kind)
     model = Model(mode, real.flat(real.a), real.flat(real.b), real.flat(real.x))
+    if "+pre" in kind:
+        real.prefill(mode, kind.endswith("preC"))
+        model.prefill(kind.endswith("preC"))
     viol = []
     for i, op in enumerate(hist):
         last = i == len(hist) - 1
